@@ -382,3 +382,46 @@ func H_C11_set_equal_but_distinct() {
 	}
 	verifReach("end")
 }
+
+// removals followed by writes: UnsetTF (also of the last field / element of a container), then SetTF into or
+// through the same container — the write succeeds and the tree equals the reference applied in sequence
+func H_C11_unset_then_set() {
+	verifBound("PATHSEG_SEQ", 2)
+	x, y := nondetInt(), nondetInt()
+	var root any
+	var p1, p2 []hSeg
+	mk := func(parts ...string) []hSeg {
+		var out []hSeg
+		for _, t := range parts {
+			if t[0] == '#' {
+				out = append(out, hSeg{sigil: '#', idx: int(t[1] - '0'), text: t[1:], num: true})
+			} else {
+				out = append(out, hSeg{sigil: '.', key: t[1:], text: t[1:]})
+			}
+		}
+		return out
+	}
+	switch nondetIntRange(0, 3) {
+	case 0:
+		root = NewObject("o", NewObject("only", x), "l", NewList(x))
+		p1, p2 = mk(".o", ".only"), mk(".o", ".new")
+	case 1:
+		root = NewObject("o", NewObject("only", x), "l", NewList(x))
+		p1, p2 = mk(".l", "#0"), mk(".l", "#1")
+	case 2:
+		root = NewList(NewObject("only", x), NewList(x))
+		p1, p2 = mk("#0", ".only"), mk("#0", ".again")
+	default:
+		root = NewObject("only", x)
+		p1, p2 = mk(".only"), mk(".only", ".deep")
+	}
+	before := hSnapAny(root)
+	want := hRefSet(hRefUnset(before, p1), p2, mval{kind: TypeInt, i: y})
+	pu := hUnsetTFAny(root, hPathString(p1))
+	_, ps := hSetTFAny(root, hPathString(p2), y)
+	verifAssert(!pu && !ps, "UnsetTF on a resolvable path and SetTF on a well-formed path succeed, also one after the other")
+	if !pu && !ps {
+		verifAssert(hExact(want, hSnapAny(root)), "an UnsetTF followed by a SetTF equals the reference applied in sequence")
+	}
+	verifReach("end")
+}
